@@ -988,7 +988,7 @@ struct Inner {
     deep: Deep,
 }
 #[derive(Default, Serialize, Deserialize, repe::RepeStruct)]
-#[repe(methods(echo(&self, v: Value) -> Value, ping(&self) -> i64, touch(&mut self)))]
+#[repe(methods(echo(&self, v: Value) -> Value, ping(&self) -> i64, touch(&mut self), boom(&self, k: Value) -> i64))]
 struct Demo {
     a: Value,
     #[repe(readonly)]
@@ -1004,6 +1004,30 @@ impl Demo {
         7
     }
     fn touch(&mut self) {}
+    /// panics while the mount's lock guard is held: String / &'static str / non-string payload
+    fn boom(&self, k: Value) -> i64 {
+        match k.as_i64().unwrap_or(0) % 3 {
+            0 => panic!("{}", String::from("boom (String)")),
+            1 => panic!("boom (&'static str)"),
+            _ => std::panic::panic_any(vec![1u8, 2, 3]),
+        }
+    }
+}
+
+/// A user-defined `Lockable`: a mutex that can be told to refuse (`LockError::Other`).
+struct FlakyLock {
+    inner: Mutex<Demo>,
+    refuse: std::sync::atomic::AtomicBool,
+}
+impl repe::server::Lockable<Demo> for FlakyLock {
+    type Guard<'a> = std::sync::MutexGuard<'a, Demo>;
+    fn lock(&self) -> Result<Self::Guard<'_>, repe::server::LockError> {
+        if self.refuse.load(Ordering::SeqCst) {
+            return Err(repe::server::LockError::other("flaky lock refuses"));
+        }
+        // never reports poisoning: a panic under this lock does not disable the mount
+        Ok(self.inner.lock().unwrap_or_else(|p| p.into_inner()))
+    }
 }
 
 /// The lock kinds `register_struct_shared` / `with_struct_shared` accept (`Lockable`).
@@ -1012,14 +1036,16 @@ enum DLock {
     Rw(Arc<std::sync::RwLock<Demo>>),
     TokioM(Arc<tokio::sync::Mutex<Demo>>),
     TokioRw(Arc<tokio::sync::RwLock<Demo>>),
+    Flaky(Arc<FlakyLock>),
 }
 impl DLock {
     fn new(kind: u64) -> DLock {
-        match kind % 4 {
+        match kind % 5 {
             0 => DLock::Std(Arc::new(Mutex::new(Demo::default()))),
             1 => DLock::Rw(Arc::new(std::sync::RwLock::new(Demo::default()))),
             2 => DLock::TokioM(Arc::new(tokio::sync::Mutex::new(Demo::default()))),
-            _ => DLock::TokioRw(Arc::new(tokio::sync::RwLock::new(Demo::default()))),
+            3 => DLock::TokioRw(Arc::new(tokio::sync::RwLock::new(Demo::default()))),
+            _ => DLock::Flaky(Arc::new(FlakyLock { inner: Mutex::new(Demo::default()), refuse: std::sync::atomic::AtomicBool::new(false) })),
         }
     }
     fn mount(&self, router: Router, root: &str, builder_style: bool) -> Router {
@@ -1039,6 +1065,7 @@ impl DLock {
             DLock::Rw(l) => go!(l, std::sync::RwLock<Demo>),
             DLock::TokioM(l) => go!(l, tokio::sync::Mutex<Demo>),
             DLock::TokioRw(l) => go!(l, tokio::sync::RwLock<Demo>),
+            DLock::Flaky(l) => go!(l, FlakyLock),
         }
     }
 }
@@ -1047,13 +1074,16 @@ struct DState {
     demo: DLock,
     written: BTreeMap<String, Vec<u8>>, // relative path -> canonical JSON last accepted by a write
     ops: Vec<String>,
+    /// from the op history: a `boom` call went through on a poisoning lock, or the flaky lock is told to refuse
+    lock_broken: bool,
+    kind: u64,
 }
 impl DState {
     fn new() -> DState {
         DState::with_lock(0)
     }
     fn with_lock(kind: u64) -> DState {
-        DState { demo: DLock::new(kind), written: BTreeMap::new(), ops: vec![] }
+        DState { demo: DLock::new(kind), written: BTreeMap::new(), ops: vec![], lock_broken: false, kind: kind % 5 }
     }
 }
 
@@ -1072,13 +1102,20 @@ fn exec_dstruct(out: &mut Out, ds: &mut DState, line: &str, w: &[&str]) -> (Stri
         out.count("dstruct.none");
         return (format!("{} none", idx), false);
     };
-    let req = request(5, &path, &body, bfmt);
+    let rid = idx.parse::<u64>().map(|i| if i % 5 == 0 { 0 } else { i.wrapping_mul(0x9E37_79B9_7F4A_7C15) }).unwrap_or(5);
+    let req = request(rid, &path, &body, bfmt);
     let view = MessageView { header: req.header, query: &req.query, body: &req.body };
     let ctx = CallContext::detached(&path);
-    let r = catch(|| h.handle_view(&view, &ctx));
+    // borrowed and owned entry, alternating by op index
+    let r = catch(|| if rid % 2 == 0 { h.handle_view(&view, &ctx) } else { h.handle(&req) });
+    let is_boom = path.ends_with("/boom");
     let obs = match r {
         Err(_) => {
-            out.oracle_fail("router.derive.panic", &format!("derived struct at {:?} panicked on {:?}", root, path), &ops);
+            if !is_boom {
+                out.oracle_fail("router.derive.panic", &format!("derived struct at {:?} panicked on {:?}", root, path), &ops);
+            } else if ds.kind < 2 {
+                ds.lock_broken = true; // std Mutex / RwLock: poisoned from now on
+            }
             "PANIC".to_string()
         }
         Ok(Err(_)) => "fail".to_string(),
@@ -1095,7 +1132,7 @@ fn exec_dstruct(out: &mut Out, ds: &mut DState, line: &str, w: &[&str]) -> (Stri
         let nroot = if root.is_empty() || root == "/" { String::new() } else if root.starts_with('/') { root.clone() } else { format!("/{}", root) };
         let rel = &path[nroot.len().min(path.len())..];
         let decodable = body.is_empty() || ((bfmt == 2 || bfmt == 3) && serde_json::from_slice::<Value>(&body).is_ok());
-        if decodable {
+        if decodable && !ds.lock_broken && rel != "/boom" {
             let has_body = !body.is_empty();
             let want: Option<&str> = match rel {
                 "" | "/inner" | "/inner/deep" => Some(if has_body { "err 4" } else { "whole" }), // whole write of a non-object: serde rejects
@@ -1120,7 +1157,7 @@ fn exec_dstruct(out: &mut Out, ds: &mut DState, line: &str, w: &[&str]) -> (Stri
     let norm_root = if root.is_empty() || root == "/" { String::new() } else if root.starts_with('/') { root.clone() } else { format!("/{}", root) };
     let rel = path[norm_root.len().min(path.len())..].to_string();
     let is_method = rel == "/echo" || rel == "/ping" || rel == "/touch";
-    if !is_method {
+    if !is_method && !ds.lock_broken {
         if !body.is_empty() && obs == format!("ok {}", hex(b"null")) {
             if let Some(c) = unhex(w[6]) {
                 ds.written.insert(rel.clone(), c);
@@ -1214,6 +1251,19 @@ fn exec_line(out: &mut Out, sc: &mut Scen, ds: &mut DState, line: &str) {
                             out.oracle_fail("router.tok.rfc6901", &format!("json_pointer::parse({:?}) = {:?}, RFC 6901 says {:?}", p, toks, want), &[line.to_string()]);
                         }
                     }
+                    // `json_pointer::evaluate` walks a document by the same tokens: build the document the
+                    // RFC tokens describe (independently) and look the pointer up
+                    if let Some(want) = rfc6901(&p) {
+                        let mut doc = json!(1);
+                        for t in want.iter().rev() {
+                            let mut m = serde_json::Map::new();
+                            m.insert(t.clone(), doc);
+                            doc = Value::Object(m);
+                        }
+                        if repe::json_pointer::evaluate(&doc, &p) != Some(&json!(1)) {
+                            out.oracle_fail("router.tok.evaluate", &format!("json_pointer::evaluate does not find the value at {:?} in the document its RFC 6901 tokens describe", p), &[line.to_string()]);
+                        }
+                    }
                     out.count("tok");
                     (format!("{} {}", idx, show_segs(&toks)), p.contains('~'))
                 }
@@ -1223,9 +1273,18 @@ fn exec_line(out: &mut Out, sc: &mut Scen, ds: &mut DState, line: &str) {
         }
         "dreset" => {
             *ds = DState::with_lock(n(2));
-            out.count(&format!("dreset.lock{}", n(2) % 4));
+            out.count(&format!("dreset.lock{}", n(2) % 5));
             ds.ops.push(line.to_string());
             out.config(line);
+        }
+        "dlockfail" => {
+            if let DLock::Flaky(l) = &ds.demo {
+                l.refuse.store(n(2) == 1, Ordering::SeqCst);
+                ds.lock_broken = n(2) == 1;
+            }
+            ds.ops.push(line.to_string());
+            out.config(line);
+            out.count("op.dlockfail");
         }
         "dstruct" => {
             let (obs, nt) = exec_dstruct(out, ds, line, &w);
@@ -1406,7 +1465,7 @@ impl Gen {
             4 => 17,
             5 => 18,
             6 => 40,
-            7 => 32,
+            7 => if self.rng.chance(1, 4) { *self.rng.pick(&[64u64, 65, 128, 300]) } else { 32 },
             _ => self.rng.range(0, 40),
         };
         let escapes = self.rng.chance(1, 2);
@@ -1437,12 +1496,28 @@ impl Gen {
         const PATHS: &[&str] = &[
             "", "/a", "/ro", "/inner", "/inner/x", "/inner/deep", "/inner/deep/z", "/echo", "/ping", "/touch", "/", "/a/", "/a/b", "/nope", "/inner/nope",
             "/inner/deep/z/q", "/inner//x", "/ping/x", "/a~0", "/inner~1x", "/inner/deep/z/1/2/3/4/5/6/7/8/9/10/11/12/13/14/15/16",
+            "/a", "/inner/x", "/inner/deep/z", "/echo",
         ];
-        let lock = self.rng.below(4);
+        let lock = self.rng.below(5);
         self.push("dreset", &lock.to_string());
         let root = *self.rng.pick(ROOTS);
         let norm = if root.is_empty() { String::new() } else if root.starts_with('/') { root.to_string() } else { format!("/{}", root) };
         for _ in 0..self.rng.range(8, 30) {
+            // now and then: a method that panics under the lock, or the user lock told to refuse / serve again
+            match self.rng.below(40) {
+                0 => {
+                    let k = self.rng.below(3);
+                    let body = serde_json::to_vec(&json!(k)).unwrap();
+                    self.push("dstruct", &format!("{} {} 2 {} {} 1000 0", shex(root), shex(&format!("{}/boom", norm)), hex(&body), hex(&body)));
+                    continue;
+                }
+                1 | 2 => {
+                    let b = self.rng.below(2);
+                    self.push("dlockfail", &b.to_string());
+                    continue;
+                }
+                _ => {}
+            }
             let rel = *self.rng.pick(PATHS);
             let path = format!("{}{}", norm, rel);
             let v: Value = match self.rng.below(7) {
